@@ -285,7 +285,8 @@ def check_input(case, rec):
 # ---------------------------------------------------------------------------
 # histories
 
-OPS = ["gen_seed", "gen_same", "gen_nan", "set_pos", "new_values", "new_cond", "model_inplace", "reassign", "mutate_pos", "shift_pos", "gen_other_store", "krige_direct", "mesh_switch"]
+OPS = ["gen_seed", "gen_same", "gen_nan", "set_pos", "new_values", "new_cond", "model_inplace", "reassign", "mutate_pos", "shift_pos", "gen_other_store", "krige_direct", "mesh_switch",
+       "scribble_cond"]
 
 
 @st.composite
@@ -366,7 +367,9 @@ def check_history(case, rec):
     generated = 0
     with quiet():
         model = lib(build_model, spec, _tags=tags)
-        krige = lib(mk_krige, model, cfg, cond_pos.copy(), cond_val.copy(), _tags=tags)
+        # the arrays the "user" hands over as conditions (and may fill with other numbers later: the object keeps its own)
+        u_cp, u_cv = cond_pos.copy(), cond_val.copy()
+        krige = lib(mk_krige, model, cfg, u_cp, u_cv, _tags=tags)
         cs = lib(gs.CondSRF, krige, mode_no=mode_no, seed=seed, _tags=tags)
         caller_pos = cur_pos.copy()  # the array object the "user" keeps and passes
         pos_set = False
@@ -462,12 +465,18 @@ def check_history(case, rec):
                 elif k == "new_values":
                     cond_val = np.array(op["vals"], dtype=float)
                     ed = _drift_ext(cond_pos) if cfg["variant"] == "extdrift" else None
-                    krige.set_condition(cond_pos.copy(), cond_val.copy(), ed)
+                    u_cp, u_cv = cond_pos.copy(), cond_val.copy()
+                    krige.set_condition(u_cp, u_cv, ed)
+                elif k == "scribble_cond":
+                    # the caller re-uses the arrays handed over as conditions for something else
+                    u_cp += 3.3
+                    u_cv -= 5.5
                 elif k == "new_cond":
                     cond_pos = cond_pos + np.array(op["shift"])[:, None]
                     cond_val = np.array(op["vals"], dtype=float)
                     ed = _drift_ext(cond_pos) if cfg["variant"] == "extdrift" else None
-                    krige.set_condition(cond_pos.copy(), cond_val.copy(), ed)
+                    u_cp, u_cv = cond_pos.copy(), cond_val.copy()
+                    krige.set_condition(u_cp, u_cv, ed)
                 elif k == "model_inplace":
                     m = cs.model
                     nm, fac = op["name"], op["factor"]
